@@ -827,9 +827,17 @@ def _r7_by_outcomes(r, m):
     name, f, calls = preds[0]
     q = "%s.%s" % (H, name)
     # the predicate decides the verdict of the matching method: it is called there with the result of a regex .match(...)
+    def is_match_value(mf, a_):
+        """a regex match: `<regex>.match(..)` itself, or a local of the method assigned from one"""
+        if any(isinstance(x, ast.Call) and isinstance(x.func, ast.Attribute) and x.func.attr == "match" for x in ast.walk(a_)):
+            return True
+        if isinstance(a_, ast.Name):
+            ds = [n_.value for n_ in ast.walk(mf) if isinstance(n_, ast.Assign) and any(isinstance(t_, ast.Name) and t_.id == a_.id for t_ in n_.targets)]
+            ds += [n_.value for n_ in ast.walk(mf) if isinstance(n_, ast.NamedExpr) and isinstance(n_.target, ast.Name) and n_.target.id == a_.id]
+            return bool(ds) and all(isinstance(d_, ast.Call) and isinstance(d_.func, ast.Attribute) and d_.func.attr == "match" for d_ in ds)
+        return False
     users = [mn for mn, mf in meths.items() if any(isinstance(c, ast.Call) and pyfront.call_name(c) == "self." + name and any(
-        isinstance(x, ast.Call) and isinstance(x.func, ast.Attribute) and x.func.attr == "match" for a_ in c.args for x in ast.walk(a_))
-        for c in ast.walk(mf))]
+        is_match_value(mf, a_) for a_ in c.args) for c in ast.walk(mf))]
     if not users:
         raise AnalysisError("%s: no method hands a regex match to it" % q)
     outs = pyform.outcomes(f)
